@@ -254,6 +254,7 @@ def run(prop: str, subset=None) -> Dict:
         vs.append({"id": f"{prop}-auto-inline-temp", "kind": "preserve", "astmode": "inline-temp", "file": "(all)", "rule": None})
         vs.append({"id": f"{prop}-auto-kwargs", "kind": "preserve", "astmode": "kwargs", "file": "(all)", "rule": None})
         vs.append({"id": f"{prop}-auto-comp-to-loop", "kind": "preserve", "astmode": "comp-to-loop", "file": "(all)", "rule": None})
+        vs.append({"id": f"{prop}-auto-rows-alias", "kind": "preserve", "astmode": "rows-alias", "file": "(all)", "rule": None})
     if not vs:
         return {"variants": 0, "results": [], "ok": True, "problems": []}
     from multiprocessing import Pool
